@@ -8,9 +8,6 @@ Open Scope Z_scope.
 (* <p begin="1s" end="2s">first</p> <p begin="3s" end="3.0003s">x</p> *)
 Definition w_collapsed : doc := (mkDoc [(Elem (mkAttrs KRegion (Some [114;48]) None None None [] [] false [] []) [])] (Some (Elem (mkAttrs KBody None None None None [] [] false [] []) [(Elem (mkAttrs KDiv None None None (Some [114;48]) [] [] false [] []) [(Elem (mkAttrs KP None (Some (Qmake 1 1)) (Some (Qmake 2 1)) None [] [] false [] []) [(Elem (mkAttrs KSpan None None None None [] [] false [] []) [(Elem (mkAttrs KText None None None None [] [] false [] [102;105;114;115;116]) [])])]); (Elem (mkAttrs KP None (Some (Qmake 3 1)) (Some (Qmake 30003 10000)) None [] [] false [] []) [(Elem (mkAttrs KSpan None None None None [] [] false [] []) [(Elem (mkAttrs KText None None None None [] [] false [] [120]) [])])])])])) [] 15 32 1080 1920 None None []).
 
-(* two regions, each with a p, body begin="1s" and no end *)
-Definition w_unbounded : doc := (mkDoc [(Elem (mkAttrs KRegion (Some [114;48]) None None None [] [] false [] []) []); (Elem (mkAttrs KRegion (Some [114;49]) None None None [] [] false [] []) [])] (Some (Elem (mkAttrs KBody None (Some (Qmake 1 1)) None None [] [] false [] []) [(Elem (mkAttrs KDiv None None None (Some [114;48]) [] [] false [] []) [(Elem (mkAttrs KP None None None None [] [] false [] []) [(Elem (mkAttrs KSpan None None None None [] [] false [] []) [(Elem (mkAttrs KText None None None None [] [] false [] [116;114;48]) [])])])]); (Elem (mkAttrs KDiv None None None (Some [114;49]) [] [] false [] []) [(Elem (mkAttrs KP None None None None [] [] false [] []) [(Elem (mkAttrs KSpan None None None None [] [] false [] []) [(Elem (mkAttrs KText None None None None [] [] false [] [116;114;49]) [])])])])])) [] 15 32 1080 1920 None None []).
-
 (* xml:space="preserve": a <br/> "  " <br/> b *)
 Definition w_blankline : doc := (mkDoc [(Elem (mkAttrs KRegion (Some [114;48]) None None None [] [] false [] []) [])] (Some (Elem (mkAttrs KBody None None None None [] [] false [] []) [(Elem (mkAttrs KDiv None None None (Some [114;48]) [] [] false [] []) [(Elem (mkAttrs KP None (Some (Qmake 1 1)) (Some (Qmake 2 1)) None [] [] true [] []) [(Elem (mkAttrs KSpan None None None None [] [] true [] []) [(Elem (mkAttrs KText None None None None [] [] false [] [97]) [])]); (Elem (mkAttrs KBr None None None None [] [] true [] []) []); (Elem (mkAttrs KSpan None None None None [] [] true [] []) [(Elem (mkAttrs KText None None None None [] [] false [] [32;32]) [])]); (Elem (mkAttrs KBr None None None None [] [] true [] []) []); (Elem (mkAttrs KSpan None None None None [] [] true [] []) [(Elem (mkAttrs KText None None None None [] [] false [] [98]) [])])])])])) [] 15 32 1080 1920 None None []).
 
@@ -19,9 +16,6 @@ Definition w_crlf : doc := (mkDoc [(Elem (mkAttrs KRegion (Some [114;48]) None N
 
 (* a --&gt; b *)
 Definition w_arrow : doc := (mkDoc [(Elem (mkAttrs KRegion (Some [114;48]) None None None [] [] false [] []) [])] (Some (Elem (mkAttrs KBody None None None None [] [] false [] []) [(Elem (mkAttrs KDiv None None None (Some [114;48]) [] [] false [] []) [(Elem (mkAttrs KP None (Some (Qmake 1 1)) (Some (Qmake 2 1)) None [] [] false [] []) [(Elem (mkAttrs KSpan None None None None [] [] false [] []) [(Elem (mkAttrs KText None None None None [] [] false [] [97;32;45;45;62;32;98]) [])])])])])) [] 15 32 1080 1920 None None []).
-
-(* region origin 10% 90%, extent 80% 20%, displayAlign after *)
-Definition w_linerange : doc := (mkDoc [(Elem (mkAttrs KRegion (Some [114;48]) None None None [(17, (VCoord (mkLen (Qmake 10 1) Upct) (mkLen (Qmake 90 1) Upct))); (6, (VExtent (mkLen (Qmake 20 1) Upct) (mkLen (Qmake 80 1) Upct))); (5, (VEnum 2))] [] false [] []) [])] (Some (Elem (mkAttrs KBody None (Some (Qmake 1 1)) (Some (Qmake 2 1)) None [] [] false [] []) [(Elem (mkAttrs KDiv None None None (Some [114;48]) [] [] false [] []) [(Elem (mkAttrs KP None None None None [] [] false [] []) [(Elem (mkAttrs KSpan None None None None [] [] false [] []) [(Elem (mkAttrs KText None None None None [] [] false [] [108;111;119]) [])])])])])) [] 15 32 1080 1920 None None []).
 
 (* <span tts:fontWeight="bold">B<span tts:fontWeight="normal">n</span></span> *)
 Definition w_reset : doc := (mkDoc [(Elem (mkAttrs KRegion (Some [114;48]) None None None [] [] false [] []) [])] (Some (Elem (mkAttrs KBody None (Some (Qmake 1 1)) (Some (Qmake 2 1)) None [] [] false [] []) [(Elem (mkAttrs KDiv None None None (Some [114;48]) [] [] false [] []) [(Elem (mkAttrs KP None None None None [] [] false [] []) [(Elem (mkAttrs KSpan None None None None [(11, (VEnum 1))] [] false [] []) [(Elem (mkAttrs KText None None None None [] [] false [] [66]) []); (Elem (mkAttrs KSpan None None None None [(11, (VEnum 0))] [] false [] []) [(Elem (mkAttrs KText None None None None [] [] false [] [110]) [])])])])])])) [] 15 32 1080 1920 None None []).
@@ -41,14 +35,6 @@ Proof.
   exists w_collapsed. eexists. eexists. split; [vm_compute; reflexivity|]. split; [vm_compute; reflexivity|].
   split; [vm_compute; reflexivity|]. split; vm_compute; reflexivity.
 Qed.
-(* unbounded-interval-several-cues-valueerror: ... without the trig_unbounded hypothesis (the other configurations do write the cue) *)
-Theorem C07_total_unbounded_refuted : exists d seq cs css,
-  isd_sequence d = Ok seq /\ vtt_cues lp seq = Ok (cs, css) /\ trig_unbounded cs = true /\
-  vtt_of_seq lp (Ok seq) = Err errToString /\ (exists out, vtt_of_seq dflt (Ok seq) = Ok out).
-Proof.
-  exists w_unbounded. eexists. eexists. eexists. split; [vm_compute; reflexivity|]. split; [vm_compute; reflexivity|].
-  split; [vm_compute; reflexivity|]. split; [vm_compute; reflexivity|]. eexists. vm_compute. reflexivity.
-Qed.
 (* arrow-in-payload *)
 Theorem C07_wf_arrow_refuted : exists d o1 o2,
   srt_from_model d true = Ok o1 /\ srt_wf o1 = false /\ vtt_from_model d dflt = Ok o2 /\ vtt_wf o2 = false.
@@ -61,9 +47,6 @@ Proof.
   exists w_blankline, w_crlf. eexists. eexists. eexists. split; [vm_compute; reflexivity|]. split; [vm_compute; reflexivity|].
   split; [vm_compute; reflexivity|]. split; [vm_compute; reflexivity|]. split; vm_compute; reflexivity.
 Qed.
-(* line-percentage-out-of-range: line:110% *)
-Theorem C07_wf_line_range_refuted : exists d o, vtt_from_model d lp = Ok o /\ vtt_wf o = false /\ (exists o', vtt_from_model d dflt = Ok o' /\ vtt_wf o' = true).
-Proof. exists w_linerange. eexists. split; [vm_compute; reflexivity|]. split; [vm_compute; reflexivity|]. eexists. split; vm_compute; reflexivity. Qed.
 (* nested-span-resets-style: the character n is computed normal and written inside <b>...</b> *)
 Theorem C07_runs_refuted : exists d seq o cs,
   isd_sequence d = Ok seq /\ srt_from_model d true = Ok o /\ srt_wf o = true /\ srt_parse o = Some cs /\
@@ -83,5 +66,5 @@ Proof.
 Qed.
 
 Print Assumptions C07_cue_settings_refuted.
-Print Assumptions C07_total_collapsed_refuted.  Print Assumptions C07_total_unbounded_refuted.  Print Assumptions C07_wf_arrow_refuted.
-Print Assumptions C07_wf_blank_line_refuted.  Print Assumptions C07_wf_line_range_refuted.  Print Assumptions C07_runs_refuted.
+Print Assumptions C07_total_collapsed_refuted.  Print Assumptions C07_wf_arrow_refuted.
+Print Assumptions C07_wf_blank_line_refuted.  Print Assumptions C07_runs_refuted.
